@@ -196,6 +196,166 @@ Definition parse_status_body (w : option wire_status) : option answer :=
   | Some ws => match decode_status ws with Ok a => Some a | _ => None end
   end.
 
+(* ---- "the body is exactly ONE JSON value" (json.Unmarshal begins with checkValid: the
+   scanner of encoding/json run over the whole text; anything but white space after the
+   first complete value is an error, as is any lexical error anywhere).  Bytes >= 0x80 are
+   accepted inside strings (Go replaces invalid UTF-8), control bytes < 0x20 are not.
+   The scanner's nesting limit (10000) cannot be reached by a text shorter than the body
+   limit that is otherwise valid, so it is not modelled. ---- *)
+Inductive jtok := JLBrace | JRBrace | JLBrack | JRBrack | JColon | JComma | JScalar (is_str : bool).
+
+Definition ch (n : nat) : ascii := ascii_of_nat n.
+Definition is_c (c : ascii) (n : nat) : bool := Nat.eqb (nat_of_ascii c) n.
+Definition is_ws (c : ascii) : bool := is_c c 32 || is_c c 9 || is_c c 10 || is_c c 13.
+Definition is_dig (c : ascii) : bool := Nat.leb 48 (nat_of_ascii c) && Nat.leb (nat_of_ascii c) 57.
+Definition is_hexc (c : ascii) : bool := match hex_digit c with Some _ => true | None => false end.
+
+(* after the opening quote: the rest after the closing quote *)
+Fixpoint lex_str (l : list ascii) : option (list ascii) :=
+  match l with
+  | [] => None
+  | c :: r =>
+      if is_c c 34 then Some r
+      else if is_c c 92 then
+        match r with
+        | [] => None
+        | e :: r' =>
+            if is_c e 34 || is_c e 92 || is_c e 47 || is_c e 98 || is_c e 102 || is_c e 110
+               || is_c e 114 || is_c e 116 then lex_str r'
+            else if is_c e 117 then
+              match r' with
+              | h1 :: h2 :: h3 :: h4 :: r'' =>
+                  if is_hexc h1 && is_hexc h2 && is_hexc h3 && is_hexc h4 then lex_str r'' else None
+              | _ => None
+              end
+            else None
+        end
+      else if Nat.ltb (nat_of_ascii c) 32 then None
+      else lex_str r
+  end.
+
+Fixpoint skip_digits (l : list ascii) : nat * list ascii :=
+  match l with
+  | c :: r => if is_dig c then let '(n, t) := skip_digits r in (S n, t) else (O, l)
+  | [] => (O, [])
+  end.
+
+Definition lex_exp (r : list ascii) : option (list ascii) :=
+  match r with
+  | e :: r' =>
+      if is_c e 101 || is_c e 69 then
+        let r1 := match r' with s :: x => if is_c s 43 || is_c s 45 then x else r' | [] => r' end in
+        let '(n, r2) := skip_digits r1 in
+        match n with O => None | _ => Some r2 end
+      else Some r
+  | [] => Some r
+  end.
+
+Definition lex_frac (r : list ascii) : option (list ascii) :=
+  match r with
+  | d :: r' =>
+      if is_c d 46 then
+        let '(n, r2) := skip_digits r' in
+        match n with O => None | _ => lex_exp r2 end
+      else lex_exp r
+  | [] => Some r
+  end.
+
+(* -? (0 | [1-9][0-9]* ) (. [0-9]+)? ([eE] [+-]? [0-9]+)? *)
+Definition lex_number (l : list ascii) : option (list ascii) :=
+  let l1 := match l with m :: r => if is_c m 45 then r else l | [] => l end in
+  match l1 with
+  | c :: r =>
+      if is_c c 48 then lex_frac r
+      else if is_dig c then lex_frac (snd (skip_digits r))
+      else None
+  | [] => None
+  end.
+
+Fixpoint strip_prefix (p : list nat) (l : list ascii) : option (list ascii) :=
+  match p with
+  | [] => Some l
+  | n :: p' => match l with c :: r => if is_c c n then strip_prefix p' r else None | [] => None end
+  end.
+
+Fixpoint jlex (fuel : nat) (l : list ascii) (acc : list jtok) : option (list jtok) :=
+  match l with
+  | [] => Some (rev acc)
+  | c :: r =>
+      match fuel with
+      | O => None
+      | S f =>
+          if is_ws c then jlex f r acc
+          else if is_c c 123 then jlex f r (JLBrace :: acc)
+          else if is_c c 125 then jlex f r (JRBrace :: acc)
+          else if is_c c 91 then jlex f r (JLBrack :: acc)
+          else if is_c c 93 then jlex f r (JRBrack :: acc)
+          else if is_c c 58 then jlex f r (JColon :: acc)
+          else if is_c c 44 then jlex f r (JComma :: acc)
+          else if is_c c 34 then
+            match lex_str r with Some r' => jlex f r' (JScalar true :: acc) | None => None end
+          else if is_c c 45 || is_dig c then
+            match lex_number l with Some r' => jlex f r' (JScalar false :: acc) | None => None end
+          else if is_c c 116 then
+            match strip_prefix [114; 117; 101]%nat r with
+            | Some r' => jlex f r' (JScalar false :: acc) | None => None end
+          else if is_c c 102 then
+            match strip_prefix [97; 108; 115; 101]%nat r with
+            | Some r' => jlex f r' (JScalar false :: acc) | None => None end
+          else if is_c c 110 then
+            match strip_prefix [117; 108; 108]%nat r with
+            | Some r' => jlex f r' (JScalar false :: acc) | None => None end
+          else None
+      end
+  end.
+
+(* the grammar over tokens: a pushdown automaton; the stack holds true for an object *)
+Inductive jst := SVal | SValOrClose | SKeyOrClose | SKey | SColon | SAfter.
+
+Definition jstep (st : option (jst * list bool)) (t : jtok) : option (jst * list bool) :=
+  match st with
+  | None => None
+  | Some (s, stk) =>
+      match s, t with
+      | (SVal | SValOrClose), JScalar _ => Some (SAfter, stk)
+      | (SVal | SValOrClose), JLBrace => Some (SKeyOrClose, true :: stk)
+      | (SVal | SValOrClose), JLBrack => Some (SValOrClose, false :: stk)
+      | SValOrClose, JRBrack => match stk with false :: k => Some (SAfter, k) | _ => None end
+      | SKeyOrClose, JScalar true => Some (SColon, stk)
+      | SKeyOrClose, JRBrace => match stk with true :: k => Some (SAfter, k) | _ => None end
+      | SKey, JScalar true => Some (SColon, stk)
+      | SColon, JColon => Some (SVal, stk)
+      | SAfter, JComma => match stk with true :: _ => Some (SKey, stk) | false :: _ => Some (SVal, stk) | [] => None end
+      | SAfter, JRBrace => match stk with true :: k => Some (SAfter, k) | _ => None end
+      | SAfter, JRBrack => match stk with false :: k => Some (SAfter, k) | _ => None end
+      | _, _ => None
+      end
+  end.
+
+Definition jaccepts (toks : list jtok) : bool :=
+  match fold_left jstep toks (Some (SVal, [])) with
+  | Some (SAfter, []) => true
+  | _ => false
+  end.
+
+Definition json_one_value (s : string) : bool :=
+  let l := list_ascii_of_string s in
+  match jlex (S (List.length l)) l [] with
+  | Some toks => jaccepts toks
+  | None => false
+  end.
+
+(* IssuerResolver.Resolve over the bytes of the body: `wire` is what encoding/json makes
+   of the members of a text it accepts (not modelled); the Content-Length header is not
+   consulted by the code, only the bytes the body delivers count *)
+Definition http_resolve_body (code : Z) (body : string) (read_ok close_ok : bool)
+                             (wire : option wire_status) : res answer :=
+  let len := Z.of_nat (String.length body) in
+  http_resolve (HResp code len read_ok
+                  (if limit_reader_bytes <=? len then None
+                   else if json_one_value body then parse_status_body wire else None)
+                  close_ok).
+
 (* IssuerResolver as a registry entry: what the transport did is `h` *)
 Definition http_resolver (h : http_result) : resolver :=
   fun _ => match http_resolve h with Ok a => Some a | _ => None end.
@@ -210,6 +370,12 @@ Definition reg_register (reg : registry) (ty : string) (r : resolver) : registry
   upsert String.eqb ty r reg.
 Definition reg_delete (reg : registry) (ty : string) : registry :=
   remove_key String.eqb ty reg.
+
+(* a history of Register / Delete calls on one registry, oldest first *)
+Inductive regop := ORegister (ty : string) (r : resolver) | ODelete (ty : string).
+Definition reg_step (reg : registry) (o : regop) : registry :=
+  match o with ORegister ty r => reg_register reg ty r | ODelete ty => reg_delete reg ty end.
+Definition reg_history (reg : registry) (ops : list regop) : registry := fold_left reg_step ops reg.
 
 (* a CredentialStatusValidationOption: WithValidationStatusResolverRegistry(r) (r may be a
    nil pointer) or a caller-defined option that answers an error *)
